@@ -71,4 +71,5 @@ Definition spec_C15 (i : winput) (o : obs_C15) : bool :=
       | Panic, Panic => negb (no_panic_expected s)    (* new_term with an id outside the id space *)
       | _, _ => false
       end
+  | _ => true
   end.
